@@ -1,5 +1,5 @@
 (* Props/C12.v — schema element objects survive serialise / parse without loss *)
-From PV Require Import Lib.Base Model.Schema Gen.SchemaTables Proofs.Schema_lemmas Proofs.Schema_table.
+From PV Require Import Lib.Base Model.Schema Model.SchemaBeforeFix Gen.SchemaTables Proofs.Schema_lemmas Proofs.Schema_table.
 Open Scope N_scope.
 
 (* Round trip, for EVERY schema and every instance tree (unbounded depth and list
@@ -60,33 +60,133 @@ Theorem C12_foreign_preserved :
 Proof. exact foreign_kept. Qed.
 Print Assumptions C12_foreign_preserved.
 
-(* The tables of all classes, REGENERATED from the working tree on this run: every row
-   is well-formed except the rows recorded as findings (known_bad_rows is derived from
-   known_findings.json by the translator); the kernel evaluates wf_row on every row. *)
-Theorem C12_actual_schema_wf :
-  forall r, In r actual_schema -> ~ In (k_id r) known_bad_rows -> wf_row actual_schema r = true.
+(* Whole-schema form: when EVERY row of the schema is well-formed, the round trip holds for
+   every object of every class that satisfies the object-level conditions obj_ok (declared
+   members only, children of the member's class, single-valued members hold at most one
+   child, extension content does not collide with the class's own names, attributes that
+   __init__ presets are set, AttributeValue objects as constructor / parser leave them). *)
+Theorem C12_roundtrip_schema :
+  forall NIL TYPE XMLNS_XS S i, NIL <> TYPE -> wf_schema S = true -> obj_ok NIL TYPE XMLNS_XS S i = true ->
+  exists c x, cls_of i = Some c /\ serialise S i = Ok x /\
+    parse NIL TYPE XMLNS_XS S c x = Ok (norm S i) /\ serialise S (norm S i) = Ok x.
+Proof.
+  intros NIL TYPE XM S i Hnt HS Hok. apply C12_roundtrip; [exact Hnt|].
+  apply obj_ok_wf_inst; assumption.
+Qed.
+Print Assumptions C12_roundtrip_schema.
+
+(* The tables of ALL classes, REGENERATED from the working tree on this run, are
+   well-formed: the kernel evaluates wf_row on every row; there is no exception list. *)
+Theorem C12_actual_schema_wf : wf_schema actual_schema = true.
 Proof. exact actual_schema_wf. Qed.
 Print Assumptions C12_actual_schema_wf.
 
+Theorem C12_actual_rows_wf : forall r, In r actual_schema -> wf_row actual_schema r = true.
+Proof. exact actual_row_wf. Qed.
+Print Assumptions C12_actual_rows_wf.
+
 Definition C12_bad_rows : list N := bad_rows actual_schema.
-Theorem C12_bad_rows_are_the_recorded_ones : forall c, In c C12_bad_rows -> In c known_bad_rows.
-Proof. exact bad_rows_known. Qed.
-Print Assumptions C12_bad_rows_are_the_recorded_ones.
+Theorem C12_no_bad_rows : C12_bad_rows = [] /\ bad_members actual_schema = [].
+Proof. split; [exact no_bad_rows|exact no_bad_members]. Qed.
+Print Assumptions C12_no_bad_rows.
 
 Theorem C12_element_maps_agree : maps_ok class_local_tag element_maps = true.
 Proof. exact element_maps_agree. Qed.
 Print Assumptions C12_element_maps_agree.
 
-(* hence, for today's pysaml2 tables *)
+(* hence, for today's pysaml2 tables: the round trip for every object of every class *)
 Theorem C12_roundtrip_actual :
-  forall i, wf_inst x_xsi_nil x_xsi_type x_xmlns_xs actual_schema i = true ->
+  forall i, obj_ok x_xsi_nil x_xsi_type x_xmlns_xs actual_schema i = true ->
   exists c x, cls_of i = Some c /\ serialise actual_schema i = Ok x /\
     parse x_xsi_nil x_xsi_type x_xmlns_xs actual_schema c x = Ok (norm actual_schema i) /\
     serialise actual_schema (norm actual_schema i) = Ok x.
-Proof. intros i. apply C12_roundtrip. exact xsi_names_distinct. Qed.
+Proof.
+  intros i. apply C12_roundtrip_schema; [exact xsi_names_distinct|exact actual_schema_wf].
+Qed.
 Print Assumptions C12_roundtrip_actual.
 
-(* ---- deviations of the unchanged code, on a two-class toy schema (they are about the
+(* ... and no class is left out vacuously: for each of them the object cls() satisfies
+   obj_ok and round-trips (evaluated by the kernel on every regenerated row) *)
+Theorem C12_every_class_has_instances :
+  forall r, In r actual_schema -> fresh_roundtrips r = true.
+Proof. apply forallb_forall. exact every_class_fresh_roundtrips. Qed.
+Print Assumptions C12_every_class_has_instances.
+
+(* ---- before the repairs (proposed_fix/C12-1..3).  The rows are in Model/SchemaBeforeFix.v,
+   next to the repaired ones.  NIL / TYPE / XMLNS_XS are 7 / 8 / 9 there. *)
+Notation bf_parse := (parse bf_xsi_nil bf_xsi_type bf_xmlns_xs).
+Notation bf_obj_ok := (obj_ok bf_xsi_nil bf_xsi_type bf_xmlns_xs).
+
+(* C12-1a, xmldsig.KeyInfo keyed EncryptedKey under the 2000/09 namespace: the object-level
+   conditions hold, the object serialises and parses, but the member comes back empty and
+   the EncryptedKey element has moved to the extension elements *)
+Theorem C12_tagkey_before_fix_refuted :
+  exists i x j e,
+    bf_obj_ok keyinfo_schema_before_fix i = true /\
+    serialise keyinfo_schema_before_fix i = Ok x /\
+    bf_parse keyinfo_schema_before_fix c_KeyInfo x = Ok j /\
+    j <> norm keyinfo_schema_before_fix i /\
+    j = I c_KeyInfo [] None [] [] [e] /\ xtag e = t_EncKey_2001.
+Proof.
+  exists keyinfo_with_key. eexists. eexists. eexists.
+  split; [vm_compute; reflexivity|]. split; [vm_compute; reflexivity|].
+  split; [vm_compute; reflexivity|]. split; [vm_compute; discriminate|].
+  split; vm_compute; reflexivity.
+Qed.
+Print Assumptions C12_tagkey_before_fix_refuted.
+
+(* C12-1b, the placeholder child class None under the 2000/09 key (xmldsig.KeyInfoType_,
+   xmlenc.OriginatorKeyInfo, xmlenc.RecipientKeyInfo): the member of a serialised object is
+   lost to the extension elements in the same way, and a document that carries a child
+   under the key the table lists cannot be parsed at all (None.c_namespace) *)
+Theorem C12_none_child_before_fix_refuted :
+  (exists i x j e,
+     serialise keyinfo_schema_before_fix i = Ok x /\
+     bf_parse keyinfo_schema_before_fix c_KeyInfoType x = Ok j /\
+     j <> norm keyinfo_schema_before_fix i /\
+     j = I c_KeyInfoType [] None [] [] [e] /\ xtag e = t_EncKey_2001) /\
+  bf_parse keyinfo_schema_before_fix c_KeyInfoType
+    (X t_KeyInfoType [] None [X t_EncKey_2000 [] None []]) = Err ATTRIBUTE_ERROR.
+Proof.
+  split.
+  - exists keyinfotype_with_key. eexists. eexists. eexists.
+    split; [vm_compute; reflexivity|]. split; [vm_compute; reflexivity|].
+    split; [vm_compute; discriminate|]. split; vm_compute; reflexivity.
+  - vm_compute. reflexivity.
+Qed.
+Print Assumptions C12_none_child_before_fix_refuted.
+
+(* C12-2 / C12-3, a declared member that __init__ never creates (sslcert key_validation, wsdl
+   import): the object cls() satisfies the object-level conditions and cannot be serialised *)
+Theorem C12_member_missing_before_fix_refuted :
+  (bf_obj_ok sslcert_schema_before_fix (fresh_first sslcert_schema_before_fix) = true /\
+   serialise sslcert_schema_before_fix (fresh_first sslcert_schema_before_fix) = Err ATTRIBUTE_ERROR) /\
+  (bf_obj_ok wsdl_schema_before_fix (fresh_first wsdl_schema_before_fix) = true /\
+   serialise wsdl_schema_before_fix (fresh_first wsdl_schema_before_fix) = Err ATTRIBUTE_ERROR).
+Proof. repeat split; vm_compute; reflexivity. Qed.
+Print Assumptions C12_member_missing_before_fix_refuted.
+
+(* the repaired rows are well-formed, so C12_roundtrip_schema covers every object over them;
+   in particular the three witnesses above now round-trip *)
+Theorem C12_repaired_rows_wf :
+  wf_schema keyinfo_schema = true /\ wf_schema sslcert_schema = true /\ wf_schema wsdl_schema = true /\
+  wf_schema keyinfo_schema_before_fix = false /\ wf_schema sslcert_schema_before_fix = false /\
+  wf_schema wsdl_schema_before_fix = false.
+Proof. repeat split; vm_compute; reflexivity. Qed.
+Print Assumptions C12_repaired_rows_wf.
+
+Theorem C12_repaired_witnesses_roundtrip :
+  forall S i, In (S, i) [(keyinfo_schema, keyinfo_with_key); (keyinfo_schema, keyinfotype_with_key);
+                         (sslcert_schema, fresh_first sslcert_schema); (wsdl_schema, fresh_first wsdl_schema)] ->
+  exists c x, cls_of i = Some c /\ serialise S i = Ok x /\
+    bf_parse S c x = Ok (norm S i) /\ serialise S (norm S i) = Ok x.
+Proof.
+  intros S i Hin. apply C12_roundtrip_schema; [vm_compute; discriminate| |];
+    repeat (destruct Hin as [Hin|Hin]; [inversion Hin; subst; vm_compute; reflexivity|]); destruct Hin.
+Qed.
+Print Assumptions C12_repaired_witnesses_roundtrip.
+
+(* ---- deviations of the engine that remain (not table rows), on a two-class toy schema (they are about the
    engine, not about a particular table) *)
 Definition toy : schema :=
   [ KR 0 100 [] [AR 50 2 TNone false] [] [] None [] [(2, s2l "dflt")] [] [] true;
@@ -114,14 +214,14 @@ Print Assumptions C12_av_nil_deviation.
 
 (* hypotheses are satisfiable: a real samlp.Response object (assertion, subject, conditions,
    two attributes with typed and empty values, foreign elements and attributes at two
-   levels) read back by the translator satisfies wf_inst over today's tables and round-trips *)
+   levels) read back by the translator satisfies obj_ok over today's tables and round-trips *)
 Example C12_witness :
-  wf_inst x_xsi_nil x_xsi_type x_xmlns_xs actual_schema example_inst = true /\
+  obj_ok x_xsi_nil x_xsi_type x_xmlns_xs actual_schema example_inst = true /\
   match serialise actual_schema example_inst with
   | Ok x => match parse x_xsi_nil x_xsi_type x_xmlns_xs actual_schema (match cls_of example_inst with Some c => c | None => 0 end) x with
             | Ok j => match serialise actual_schema j with Ok y => true | Err _ => false end
             | Err _ => false end
   | Err _ => false
   end = true.
-Proof. split; [exact example_wf|exact example_roundtrip]. Qed.
+Proof. split; [exact example_ok|exact example_roundtrip]. Qed.
 Print Assumptions C12_witness.
